@@ -115,3 +115,20 @@ package ext
 //@   allocates
 //@   top-ensures err == nil && maxBodySize > 0 ==> len(res) <= maxBodySize
 //@   top-ensures err == nil && contentLength >= 0 ==> len(res) == contentLength && r.pos == old(r.pos) + contentLength && forall(k, 0, contentLength, res[k] == wire(r, old(r.pos) + k))
+
+// ---- C04: chunk encoder emits size, CRLF, data and (for a non-empty chunk) CRLF, in this order ----
+//@ ghost var wcStep int
+//@ func WriteChunk(w, b, withFlush) err
+//@   props C04
+//@   abstract
+//@   noinline
+//@   ghostset-at-entry wcStep = 0
+//@   assert before WriteHexInt: wcStep == 0 && arg1 == len(b)
+//@   ghostset after WriteHexInt: wcStep = 1
+//@   assert before WriteBinary#0: wcStep == 1 && sameSlice(arg1, bytestr.StrCRLF)
+//@   ghostset after WriteBinary#0: wcStep = 2
+//@   assert before WriteBinary#1: wcStep == 2 && sameSlice(arg1, b)
+//@   ghostset after WriteBinary#1: wcStep = 3
+//@   assert before WriteBinary#2: wcStep == 3 && len(b) > 0 && sameSlice(arg1, bytestr.StrCRLF)
+//@   ghostset after WriteBinary#2: wcStep = 4
+//@   top-ensures err == nil ==> (len(b) > 0 ==> wcStep == 4) && (len(b) == 0 ==> wcStep == 3)
